@@ -414,7 +414,7 @@ func (sf *SnowflakeProxy) makePeerConnectionFromOffer(sdp *webrtc.SessionDescrip
 	// We have to wait for candidate gathering to complete
 	// before we send the offer
 	done := webrtc.GatheringCompletePromise(pc)
-	err = pc.SetRemoteDescription(*sdp)
+	err = util.SetRemoteDescription(pc, *sdp)
 	if err != nil {
 		if inerr := pc.Close(); inerr != nil {
 			log.Printf("unable to call pc.Close after pc.SetRemoteDescription with error: %v", inerr)
@@ -695,7 +695,7 @@ func (sf *SnowflakeProxy) checkNATType(config webrtc.Configuration, probeURL str
 		log.Printf("Error setting answer: %s", err.Error())
 		return
 	}
-	err = pc.SetRemoteDescription(*answer)
+	err = util.SetRemoteDescription(pc, *answer)
 	if err != nil {
 		log.Printf("Error setting answer: %s", err.Error())
 		return
